@@ -45,8 +45,8 @@ type parseObs struct {
 	Shapes    []string     `json:"shapes"`
 	Comments  []commentObs `json:"comments"`
 	Remaining int          `json:"remaining"` // runes left in the scanner (scanner/string sources)
-	Panic     string       `json:"panic,omitempty"`
-	ProjErr   string       `json:"projerr,omitempty"`
+	Panic     string       `json:"panic"`
+	ProjErr   string       `json:"projerr"`
 	Delivered bool         `json:"delivered,omitempty"` // the injected fault was returned to the parser before it returned
 	ErrIs     bool         `json:"erris,omitempty"`     // errors.Is(err, injected)
 }
